@@ -107,6 +107,16 @@ def run(case):
             fn = f"m_{cell}_{case['member']}.{fmt}".replace("-", "_")
             mesh.write(fn)
             c.trans += 1
+            # the cellblock= argument: the only block of the file addressed in every way (None, 0, -1, numpy integer, slices)
+            for cb_lab, cb in (("None", None), ("0", 0), ("-1", -1), ("np.int64(0)", np.int64(0)), ("slice(0,1)", slice(0, 1)), ("slice(None)", slice(None))):
+                try:
+                    mcb = fem.mesh.read(fn, dim=mesh.dim, cellblock=cb)
+                except Exception as ex:  # noqa
+                    c.bad(f"{fmt}/cellblock={cb_lab}/exception", "read(cellblock=...) raised for a valid block index", repr(ex)[:120], "the block")
+                    continue
+                c.trans += 1
+                if len(mcb.meshes) != 1 or mcb.meshes[0].cell_type != mesh.cell_type or not np.array_equal(mcb.meshes[0].cells, mesh.cells):
+                    c.bad(f"{fmt}/cellblock={cb_lab}", "read(cellblock=...) of a one-block file returns that block", [len(mcb.meshes), getattr(mcb.meshes[0], "cell_type", None) if len(mcb.meshes) else None], [1, mesh.cell_type])
             for dim_arg in (None, mesh.dim):
                 mc = fem.mesh.read(fn, dim=dim_arg)
                 c.trans += 1
@@ -161,6 +171,18 @@ def run(case):
                         npts = len(np.unique(np.round(mc.points, 12), axis=0))
                         if len(r.points) != npts:
                             c.bad(sub + "/merged-count", "number of points after merging duplicates", len(r.points), npts)
+                # every block of the two-block file by its index from the front and from the back
+                nb_ = len(mc.meshes)
+                for k_ in range(nb_):
+                    for cb in (k_, k_ - nb_, np.int64(k_)):
+                        try:
+                            rb_ = fem.mesh.read(fn, dim=2, cellblock=cb)
+                        except Exception as ex:  # noqa
+                            c.bad(f"{lab}/{fmt}/cellblock={cb}/exception", "read(cellblock=...) raised for a valid block index", repr(ex)[:120], "the block")
+                            continue
+                        c.trans += 1
+                        if len(rb_.meshes) != 1 or rb_.meshes[0].cell_type != mc.meshes[k_].cell_type or len(rb_.meshes[0].cells) != len(mc.meshes[k_].cells):
+                            c.bad(f"{lab}/{fmt}/cellblock={cb}", "read(cellblock=k) returns block k of the file", [len(rb_.meshes), getattr(rb_.meshes[0], "cell_type", None) if len(rb_.meshes) else None], [1, mc.meshes[k_].cell_type])
                 os.remove(fn)
                 if fmt == "xdmf" and os.path.exists(fn.replace(".xdmf", ".h5")):
                     os.remove(fn.replace(".xdmf", ".h5"))
